@@ -67,6 +67,8 @@ const (
 	tClose          // ")" on its own line
 	tIncludeFile    // INCLUDE inc.jst (present in the virtual file system of harnesses that set verifFiles)
 	tIncludeMissing // INCLUDE nofile.jst
+	tParams         // Params with an object body (JSON-RPC)
+	tResult         // Result with an object body holding a reference to a user type (JSON-RPC)
 )
 
 var verifTplNames = []string{"JSIGHT", "INFO", "Title", "Version", "SERVER", "BaseUrl", "URL", "GET", "POST", "GET /p", "Request any",
@@ -201,6 +203,10 @@ func verifLineWith(t int, l string) string {
 		return "Path\n{\"id\": 1}"
 	case tRequestObj:
 		return "Request\n{\"r\": 1}"
+	case tParams:
+		return "Params\n{\"p\": 1}"
+	case tResult:
+		return "Result\n{\"r\": @" + l + "}"
 	}
 	return ""
 }
@@ -283,6 +289,7 @@ func verifSig(c *catalog.Catalog) []string {
 	})
 	c.UserEnums.EachSafe(func(k string, v *catalog.UserRule) {
 		out = append(out, "enum "+k+" annotation="+v.Annotation)
+		out = append(out, verifRuleSig("enum "+k, v.Value)...)
 	})
 	c.Tags.EachSafe(func(k catalog.TagName, v *catalog.Tag) {
 		line := "tag " + string(k) + " title=" + v.Title
@@ -331,6 +338,9 @@ func verifSig(c *catalog.Catalog) []string {
 					line += " headers"
 				}
 				out = append(out, line)
+				if r.Headers != nil {
+					out = append(out, verifSchemaSig(" response "+r.Code+" headers", r.Headers.Schema)...)
+				}
 				if r.Body != nil {
 					out = append(out, verifSchemaSig(" response "+r.Code, r.Body.Schema)...)
 				}
@@ -340,8 +350,25 @@ func verifSig(c *catalog.Catalog) []string {
 			for _, t := range in.Tags {
 				out = append(out, " tag="+string(t))
 			}
+			if in.Params != nil {
+				out = append(out, " params")
+				out = append(out, verifSchemaSig(" params", in.Params.Schema)...)
+			}
+			if in.Result != nil {
+				out = append(out, " result")
+				out = append(out, verifSchemaSig(" result", in.Result.Schema)...)
+			}
 		}
 	})
+	return out
+}
+
+// verifRuleSig renders an enum's value tree.
+func verifRuleSig(prefix string, r catalog.Rule) []string {
+	out := []string{prefix + " rule key=" + r.Key + " token=" + string(r.TokenType) + " value=" + r.ScalarValue}
+	for _, ch := range r.Children {
+		out = append(out, verifRuleSig(prefix+"/", ch)...)
+	}
 	return out
 }
 
@@ -436,7 +463,21 @@ func VerifH_CatalogStructure() {
 		// responses with repeated codes, bodies as children, headers (schema library for the Headers body)
 		menu = []int{tGetPath, tResp200, tResp404, tRespBare, tBodyAny, tHeaders}
 	}
+	if verifrt.Bound("MENU") == 4 {
+		// schema-bearing declarations through the real schema library: object types, enums, responses that are
+		// a reference / an array of references, an object request, JSON-RPC methods with Params and Result
+		menu = []int{tTypeObj, tEnum, tURL, tProtocol, tMethod, tParams, tResult, tGetPath, tRespRef, tRespArr, tRequestObj}
+	}
+	if verifrt.Bound("MENU") == 5 {
+		// JSON-RPC: under a fixed "URL /a", "Protocol json-rpc-2.0" come K lines out of Method, Params, Result, TYPE
+		menu = []int{tMethod, tParams, tResult, tTypeObj}
+	}
 	text, lines := verifDocLines(menu, k, true)
+	if verifrt.Bound("MENU") == 5 {
+		pre := []refLine{{t: tJsight, parent: -1}, {t: tURL, letter: "a", parent: -1}, {t: tProtocol, parent: -1}}
+		lines = append(pre, lines[1:]...)
+		text = verifRender(lines)
+	}
 	if verifrt.Bound("MENU") == 1 || verifrt.Bound("MENU") == 2 {
 		// both tags are declared up front, so that Tags directives at URL and method level are acceptable
 		pre := []refLine{{t: tJsight, parent: -1}, {t: tTag, letter: "a", parent: -1}, {t: tTag, letter: "b", parent: -1}}
